@@ -262,7 +262,7 @@ func (fr *Frame) applyContract(ins ssa.Instruction, c *FuncContract, short strin
 				}
 				fmt.Fprintf(os.Stderr, "  alloc effect of %s: known=%v %v\n", short, set != nil, ks)
 			}
-			if set != nil && len(set) <= 12 {
+			if set != nil && len(set) <= 40 {
 				st.assume(allocTagFact(oldAlloc, st.H(allocKey, allocSort), set))
 			}
 		}
